@@ -54,8 +54,8 @@ def kernel(sk, *xs):
             ref = [sum(A[m][k] for m in range(len(A))) for k in range(len(A[0]))]
     if out != ref:
         return fail("%s/%s: output differs from the dense result: %r vs %r" % (kind, variant, out, ref))
-    if not kernels.clean(z.getRoot()):
-        return fail("%s/%s: an explicit default or an empty sub-fiber was left in the output" % (kind, variant))
+    # (what a populate loop may leave behind is C05's subject: an output sub-fiber emptied by a later pass of a K-outermost
+    #  dataflow legitimately stays as an empty sub-fiber; C06 speaks about content)
     if wf(z.getRoot()) < 0 or not mirror(z):
         return fail("%s/%s: output tensor not well-formed" % (kind, variant))
     return True
